@@ -67,6 +67,41 @@ def gen_select_lists(rnd, n, lang):
     return out
 
 
+NAME_POOL = ['id', 'name two', 'ta\tb', 'back\\slash', 'q"uote', "it's", 'a.b', 'x', 'NR', 'n3', 'é', '', 'a1', 'x y (z)', 'col]', '#h', '`bt`', 'id', 'line\nbreak', 'name', 'name2', '_u', 'two  spaces', 'k:v;w']
+
+
+def py_escape(name, q):
+    s = name.replace('\\', '\\\\').replace('\n', '\\n').replace('\r', '\\r').replace('\t', '\\t')
+    return s.replace(q, '\\' + q)
+
+
+def gen_name_cases(rnd, n):
+    """(header names, query text): references to the columns in every spelling, near misses, fragments of names"""
+    out = []
+    for _ in range(n):
+        names = [rnd.choice(NAME_POOL) for _i in range(rnd.randint(1, 4))]
+        toks = []
+        for _i in range(rnd.randint(0, 6)):
+            nm = rnd.choice(names + [rnd.choice(NAME_POOL)])
+            pfx = rnd.choice('aab')
+            r = rnd.random()
+            if r < 0.3:
+                q = rnd.choice('"\'')
+                toks.append('%s[%s%s%s]' % (pfx, q, py_escape(nm, q), q))
+            elif r < 0.5:
+                toks.append('%s.%s' % (pfx, nm))
+            elif r < 0.6:
+                toks.append(nm)
+            elif r < 0.7:
+                toks.append(nm[:max(1, len(nm) // 2)])
+            elif r < 0.8:
+                toks.append(rnd.choice(['a[', 'b[', 'a[1]', 'xa[', '_a.id', 'xa.id', 'a .x', 'a.', 'a.1x', 'a.id2', 'ba.id', 'a.NR', 'aNR', 'b.NR']))
+            else:
+                toks.append(rnd.choice([' ', ', ', ' + ', '(', ')', ' == ', 'select ', ' where ']))
+        out.append((names, rnd.choice(['', ' ', ', ']).join(toks)))
+    return out
+
+
 def run_leg(res, tier, seed, kinds):
     """kinds: subset of {'select', 'update', 'vars', 'infos'}.  Appends violations to res."""
     rnd = random.Random(seed * 7919 + 101)
@@ -119,12 +154,25 @@ def run_leg(res, tier, seed, kinds):
             for text, lits in gen_select_lists(rnd, 3000 if quick else 40000, lang):
                 add((lang,), 'selinfos %%s %s %s' % (enc_str(text), enc_list(lits)), ('selinfos1',))
 
+    if 'names' in kinds:
+        for names, text in gen_name_cases(rnd, 4000 if quick else 60000):
+            for pfx in ('a', 'b'):
+                add(('py', 'js'), 'dictvars %%s %s %s %s' % (enc_str(pfx), enc_str(text), enc_list(names)), ('flagonly',))
+                add(('py', 'js'), 'attrvars %%s %s %s %s' % (enc_str(pfx), enc_str(text), enc_list(names)), ('flagonly',))
+            add(('py',), 'directvars %s %s' % (enc_str(text), enc_list(names)), None)
+
     # group by implementation; lines with a %s placeholder for the js flag get it filled per implementation
     def vars_canon(line, out):
         if line.startswith('basicvars') or line.startswith('arrayvars'):
             if out in ('!', '') or not all(p.isdigit() for p in out.split(',')):
                 return out
             return ','.join(str(x) for x in sorted(set(int(p) for p in out.split(','))))
+        return out
+
+    def attr_canon(line, out):
+        # parse_attribute_variables of rbql_engine.py walks a `set` of names: the insertion order of its map is arbitrary
+        if line.startswith('attrvars') and out.startswith('ok ') and out != 'ok ~':
+            return 'ok ' + ' '.join(sorted(out[3:].split(' ')))
         return out
 
     def reject_canon(line, out):
@@ -141,16 +189,16 @@ def run_leg(res, tier, seed, kinds):
                 continue
             if what is None:
                 lines.append(line)
-            elif what[0] == 'selinfos1':
+            elif what[0] in ('selinfos1', 'flagonly'):
                 lines.append(line % flag)
             else:
                 lines.append(line % (flag, what[1]))
         if not lines:
             continue
         lines = list(dict.fromkeys(lines))
-        mout = [reject_canon(l, vars_canon(l, o)) for l, o in zip(lines, common.run_model(lines))]
+        mout = [attr_canon(l, reject_canon(l, vars_canon(l, o))) for l, o in zip(lines, common.run_model(lines))]
         iout = common.run_impl_py(lines) if impl == 'py' else common.run_impl_js(lines)
-        iout = [reject_canon(l, vars_canon(l, o)) for l, o in zip(lines, iout)]
+        iout = [attr_canon(l, reject_canon(l, vars_canon(l, o))) for l, o in zip(lines, iout)]
         res.evaluations += len(lines)
         for l, m, o in zip(lines, mout, iout):
             op = l.split(' ')[0]
@@ -163,12 +211,12 @@ def run_leg(res, tier, seed, kinds):
             if nbad <= 3:
                 args = l.split(' ')
                 # shrink the text argument (the last but one for colinfos/selinfos, the last otherwise)
-                pos = len(args) - 2 if op in ('colinfos', 'selinfos') else len(args) - 1
+                pos = len(args) - 2 if op in ('colinfos', 'selinfos', 'dictvars', 'attrvars', 'directvars') else len(args) - 1
                 text = common.dec_str(args[pos])
 
                 def mk(t, args=args, pos=pos):
                     return ' '.join(args[:pos] + [enc_str(t)] + args[pos + 1:])
-                cm = lambda ln, out: reject_canon(ln, vars_canon(ln, out))
+                cm = lambda ln, out: attr_canon(ln, reject_canon(ln, vars_canon(ln, out)))
                 small = common.shrink(text, mk, impl, canon=lambda name, ln, out: cm(ln, out), model_canon=cm)
                 sl = mk(small)
                 _b, m2, o2 = common.disagrees(sl, impl, canon=lambda name, ln, out: cm(ln, out), model_canon=cm)
@@ -185,6 +233,8 @@ def _cm(line, out):
             out = ','.join(str(x) for x in sorted(set(int(p) for p in out.split(','))))
     if line.startswith('selinfos') and (out == 'SYNTAX' or out.startswith('err open') or out.startswith('err close') or out == 'err parse'):
         return 'REJECT'
+    if line.startswith('attrvars') and out.startswith('ok ') and out != 'ok ~':
+        return 'ok ' + ' '.join(sorted(out[3:].split(' ')))
     return out
 
 
